@@ -12,3 +12,5 @@ void _ZdlPv(uint8_t *p) { free(p); }
 uint32_t G_tokens, G_tokens0; int G_plain_changed; uint32_t G_fy0;
 /* C13 box tasks: raw storage for a copy, entry copy of y */
 BOX_T G_bz; ITV_T G_ys0[BOX_N]; uint32_t G_fy0v;
+/* C14 box tasks: entry copies of both operands */
+BOX_T G_bx_entry, G_by_entry; ITV_T G_xs_entry[BOX_N], G_ys_entry[BOX_N];
